@@ -385,7 +385,7 @@ def _comp_drawPoints(ex, st, self, args, kwargs, node):
     st.assume(z3.Implies(z3.And(included, empty), z3.Length(new) == 0))
     comps = ex.read_field(st, G, "components")
     cs = lift(comps)
-    app = _pos_seq(st, comps.ty, z3.Length(cs) + z3.Length(new), lambda p: z3.If(p < z3.Length(cs), cs[p], new[p - z3.Length(cs)]), "appended")
+    app = z3.Concat(cs, new)
     ex.write_field(st, G, "components", Val(comps.ty, app), node)
     cnt = z3.Int(fresh_name("ncont"))
     st.assume(cnt >= 0)
@@ -456,7 +456,8 @@ contract(
     canaries={"nothing-left": "len(glyph.components) == 0"},
     modifies=["SXGlyph.components", "SXGlyph.ncontours"],
     ghost_vars={
-        "wN": (Dict(INT, INT), "{}"),
+        # witness list: wN[j] = where the pass-through copy of K[j] sits, counted from the start of the appended part
+        "wN": (List(INT), "[]"),
         # initial values (invariants cannot say old()): components / contour count of every glyph of the set, of `glyph`
         "C0": (Map(STR, List(Ref("SXComponent"))), "glyphSet.comps"),
         "N0": (Map(STR, INT), "glyphSet.ncont"),
@@ -464,29 +465,18 @@ contract(
         "F0": (Map(Ref("SXGlyph"), List(Ref("SXComponent"))), "glyph.frame_components"),
         "F1": (Map(Ref("SXGlyph"), INT), "glyph.frame_ncontours"),
     },
-    ghost={"glyph.removeComponent(component)": ["wN = {**wN, i: len(glyph.components) - len(K) + i}"]},
-    # stepping stones between the two list edits of an iteration (each is proved, then assumed): after the pen has appended its
-    # output, the invariants still hold with the same i, and a passed-through component sits at the end
-    hints={"component.drawPoints(pen)": [
-        "len(glyph.components) >= len(K) - i and all(glyph.components[k] == K[i + k] for k in range(len(K) - i))",
-        "glyph.components[0] == component",
-        "all(glyph.components[k].baseGlyph not in include for k in range(len(K) - i, len(glyph.components)))",
-        "all(implies(K[j].baseGlyph not in include, j in wN and 0 <= wN[j] and len(K) - i + wN[j] < len(glyph.components)"
-        " and glyph.components[len(K) - i + wN[j]].baseGlyph == K[j].baseGlyph"
-        " and glyph.components[len(K) - i + wN[j]].transformation == K[j].transformation) for j in range(i))",
-        "implies(component.baseGlyph not in include, glyph.components[len(glyph.components) - 1].baseGlyph == component.baseGlyph"
-        " and glyph.components[len(glyph.components) - 1].transformation == component.transformation and len(glyph.components) > len(K) - i)",
-    ]},
+    ghost={"glyph.removeComponent(component)": ["wN = wN + [len(glyph.components) - len(K) + i]"]},
     loops={
         "for component in list(glyph.components)": Loop(
             index="i", seq="K",
             invariants={
                 "rest": "len(glyph.components) >= len(K) - i and all(glyph.components[k] == K[i + k] for k in range(len(K) - i))",
                 "new": "all(glyph.components[k].baseGlyph not in include for k in range(len(K) - i, len(glyph.components)))",
-                "wit": "all(implies(K[j].baseGlyph not in include, j in wN and 0 <= wN[j] and len(K) - i + wN[j] < len(glyph.components)"
+                "wit-len": "len(wN) == i",
+                "wit": "all(implies(K[j].baseGlyph not in include, 0 <= wN[j] and len(K) - i + wN[j] < len(glyph.components)"
                 " and glyph.components[len(K) - i + wN[j]].baseGlyph == K[j].baseGlyph"
                 " and glyph.components[len(K) - i + wN[j]].transformation == K[j].transformation) for j in range(i))",
-                "others": "all(implies(glyphSet[n] != glyph, glyphSet.comps[n] == C0[n] and glyphSet.ncont[n] == N0[n]) for n in glyphSet.keyset)",
+                # (whole-heap frame; the postcondition `others` about the glyphs of the set follows from it at loop exit)
                 "frame": "glyph.frame_components == F0 and glyph.frame_ncontours == F1",
                 "idle": "implies(all(K[j].baseGlyph not in include for j in range(i)), len(glyph) == NC0 and len(glyph.components) == len(K))",
             },
